@@ -1,2 +1,87 @@
+"""R13.2 (fit recomputes what it reads) and R13.3 (sliding window)."""
+import ast
+
+from ..attrflow import AttrMust
+from ..common import norm_stmt
+from ..deps import names_in
+from ..index import ClassInfo, AnalysisError
+from .c03 import is_abstract
+
+# reads in fit that are not fitted state of an earlier fit (one symbol per
+# line, with the reason)
+EXPOSED_OK = {
+}
+
+
+def fit_entities(p):
+    from .c13 import estimator_classes
+    out = []
+    extra = [c for c in p.classes.values() if c.name in ("IndexClassifierWrapper",)]
+    for ci in estimator_classes(p):
+        f = p.find_method(ci, "fit")
+        if f is None or is_abstract(f):
+            continue
+        out.append((ci, f))
+    return out
+
+
 def run(p, report, tier):
-    pass
+    report.rule("R13.2", "in every fit (callees summarised through the MRO, literal fit_function propagated as a path "
+                "fact) every read of a fitted attribute self.a_ / self._a is preceded on all paths by a store in the "
+                "same fit call; hasattr(self, 'a_') being true does not count as a store", floor=12)
+    report.rule("R13.3", "SlidingWindowClassifier: every deque stored in X_train_, y_train_, sample_weight_train_ is "
+                "created with maxlen=self.window_size, fit re-creates all three, partial_fit extends all three", floor=5)
+    ents = fit_entities(p)
+    for ci, f in ents:
+        am = AttrMust(p, ci, f).run()
+        must, exposed = am.summary()
+        ent = f"{ci.name}.fit"
+        for attr, (ln, file, qual, facts, via) in sorted(exposed.items()):
+            exc = EXPOSED_OK.get((ent, attr))
+            report.add("R13.2", ent, f"read of self.{attr} in {qual}", f"{file}:{ln}", exc is not None,
+                       detail=("accepted: " + exc) if exc else
+                       f"self.{attr} is read before this fit call has stored it (a value from an earlier fit/predict "
+                       f"leaks in) on the path where: {facts or 'always'}" + (f" via {' <- '.join(via)}" if via else ""))
+        if not exposed:
+            report.add("R13.2", ent, "every fitted attribute read in fit was stored earlier in the same call",
+                       f"{f.file}:{f.node.lineno}", True, detail=f"{len(must)} attributes definitely (re)computed: "
+                       + ", ".join(sorted(must)[:12]))
+    # ---- R13.3
+    sw = p.get_class("SlidingWindowClassifier")
+    names = ("X_train_", "y_train_", "sample_weight_train_")
+    add = sw.methods.get("_add_samples")
+    if add is None:
+        raise AnalysisError("SlidingWindowClassifier._add_samples vanished")
+    # every deque creation for the three attributes has maxlen=self.window_size
+    for k in p.mro(sw):
+        if not isinstance(k, ClassInfo):
+            continue
+        for m in k.methods.values():
+            for n in ast.walk(m.node):
+                if isinstance(n, ast.Assign) and any(isinstance(t, ast.Attribute) and isinstance(t.value, ast.Name)
+                                                     and t.value.id == "self" and t.attr in names for t in n.targets):
+                    v = n.value
+                    if isinstance(v, ast.Constant) and v.value is None:
+                        continue
+                    ok = isinstance(v, ast.Call) and isinstance(v.func, ast.Name) and v.func.id == "deque" and any(
+                        kw.arg == "maxlen" and ast.unparse(kw.value) == "self.window_size" for kw in v.keywords)
+                    report.add("R13.3", m.qual, f"`{norm_stmt(n, 70)}`", f"{m.file}:{n.lineno}", ok,
+                               detail="bounded by window_size" if ok else "window container is not a deque bounded by self.window_size")
+    # fit re-creates all three unconditionally (under fit_func == 'fit')
+    from ..paths import Facts, Const
+    facts = Facts()
+    facts.allowed["fit_func"] = frozenset([Const("fit")])
+    am = AttrMust(p, sw, add, init_facts=facts).run()
+    must, exposed = am.summary()
+    for a in names:
+        ok = a in must and a not in exposed
+        report.add("R13.3", "SlidingWindowClassifier._add_samples[fit]", f"self.{a} re-created before it is used",
+                   f"{add.file}:{add.node.lineno}", ok,
+                   detail="stored on every path before any read" if ok else
+                   f"fit reuses the container of an earlier fit (must-store={a in must}, read-before-store={a in exposed})")
+    # partial_fit extends all three
+    ext = {n.func.value.attr for n in ast.walk(add.node) if isinstance(n, ast.Call) and isinstance(n.func, ast.Attribute)
+           and n.func.attr == "extend" and isinstance(n.func.value, ast.Attribute) and isinstance(n.func.value.value, ast.Name)
+           and n.func.value.value.id == "self"}
+    report.add("R13.3", "SlidingWindowClassifier._add_samples", "all three windows are extended together",
+               f"{add.file}:{add.node.lineno}", set(names) <= ext, detail=f"extended: {sorted(ext)}")
